@@ -173,6 +173,13 @@ def finish(res: Result) -> int:
     with open(tmp, "w") as f:
         json.dump(ev, f, indent=1, default=repr)
     os.replace(tmp, os.path.join(EVIDENCE, f"{res.prop}.json"))
+    if res.tier == "thorough":
+        # the last thorough run keeps a record of its own (evidence/<id>.json is rewritten by every run, quick or thorough)
+        td = os.path.join(EVIDENCE, "thorough")
+        os.makedirs(td, exist_ok=True)
+        with open(os.path.join(td, f".{res.prop}.json.tmp"), "w") as f:
+            json.dump(ev, f, indent=1, default=repr)
+        os.replace(os.path.join(td, f".{res.prop}.json.tmp"), os.path.join(td, f"{res.prop}.json"))
     for sig, v in sorted(seen_known.items()):
         print(f"KNOWN-FINDING: property={res.prop} {known[sig].get('what', v.what)}")
     for sig, v in sorted(uniq.items()):
